@@ -15,6 +15,7 @@ import json
 import multiprocessing as mp
 import os
 import random
+import signal
 import time
 import traceback
 from pathlib import Path
@@ -208,6 +209,14 @@ def _finite_detail(d) -> bool:
     return True
 
 
+class SpecialTimeout(BaseException):
+    pass
+
+
+def _special_timeout(*_a):
+    raise SpecialTimeout()
+
+
 def work(idx):
     item = _ITEMS[idx]
     cfg = _CFG
@@ -286,6 +295,8 @@ def work(idx):
         t_sp = time.time()
         rng_s = random.Random(f"{cfg['seed']}:special:{item.key}")
         sp = []
+        signal.signal(signal.SIGALRM, _special_timeout)
+        signal.alarm(90)
         try:
             if S.comparisons_of(ex):
                 sp += S.boundary_stream(item, ex, specs, plan, rng_s, pick_branch)
@@ -295,8 +306,12 @@ def work(idx):
                 sp += S.inverse_numeric(item.module, rng_s)
             if S.has_sequence_arg(ex):
                 sp += S.long_sequence_stream(item, build_lemmas, rng_s, pick_branch, cfg["seq_lengths"])
+        except SpecialTimeout:
+            sp.append({"stream": "special", "status": "skipped", "why": "time budget (90 s) of the special tuples exhausted"})
         except Exception as e:  # pylint: disable=broad-except
             sp.append({"stream": "special", "status": "error", "why": f"{type(e).__name__}: {e}", "tb": traceback.format_exc()[-800:]})
+        finally:
+            signal.alarm(0)
         out["special"] = {"n": len(sp), "by_stream": {}, "bad": [r for r in sp if r.get("status") in ("mismatch", "law-fail", "error")][:4],
             "sample": next((r for r in sp if r.get("status") == "ok"), None), "t": round(time.time() - t_sp, 2)}
         for r in sp:
@@ -520,7 +535,8 @@ def run(ctx):
                     "inverse-mixed-length": f"law functions {c.get('pair')} of {r['key'].rsplit('.', 1)[0]} are not mutual inverses on vectors of different lengths",
                     "long-sequence": f"{r['key']} disagrees with its law for a sequence of {c.get('length')} elements"}.get(stream,
                         f"special tuple stream failed for {r['key']}: {c.get('why')}")
-            ctx.violation(f"C02:{r['key']}:{stream}", what, rep, found_input=c.get("status") == "law-fail")
+            vkey = f"C02:{r['key']}:law-residual" if c.get("status") == "law-fail" else f"C02:{r['key']}:{stream}"
+            ctx.violation(vkey, what, rep, found_input=c.get("status") == "law-fail")
             break
     ctx.coverage["special_tuples"] = special_counts
     for u in untied:
